@@ -657,7 +657,10 @@ def filter_lists(rng, full):
 
 def run_job(job):
     """job: dict(seed, nodes, creates, mode, use_pull, full, p_extra,
-    sources (None = all), classes).  Returns dict(trace, log, lists)."""
+    sources (None = all), classes[, part]).  Returns dict(trace, log, lists).
+    part = (k, n): the k-th of n slices of the job (same seed => the same
+    repository and filter lists in every slice): slice k queries the sources
+    x with x % n == k; the class-level sources belong to slice 0."""
     rng = random.Random(job["seed"])
     conn, log = build(rng, job["nodes"], job["creates"], job["mode"],
                       job["use_pull"])
@@ -669,6 +672,7 @@ def run_job(job):
               "acs": acs, "rcs": rcs, "rls": rls}]
     p_extra = job["p_extra"]
     ncalls = 0
+    part_k, part_n = job.get("part") or (0, 1)
 
     def slots_for():
         s = [1, 2]
@@ -679,7 +683,7 @@ def run_job(job):
         return s
 
     # class-level sources
-    for ctok in job.get("classes", ()):
+    for ctok in (job.get("classes", ()) if part_k == 0 else ()):
         exact = rng.random() < 0.6
         cname = CLASSNAME[ctok] if exact else recase(rng, CLASSNAME[ctok])
         nsid = rng.choice((1, 2))
@@ -712,6 +716,8 @@ def run_job(job):
     if sources is None:
         sources = list(range(1, stored.nstored + 1))
     for x in sources:
+        if x % part_n != part_k:
+            continue
         node = stored.nodes[x - 1]
         spath = stored.node_paths[x - 1]
 
